@@ -35,23 +35,45 @@ Proof. unfold dict_has. rewrite gen_lsdigit_eq. reflexivity. Qed.
 (* ------------------------------------------------------------------------------------------ *)
 (** * convert_to_number *)
 
+(** the digit loop is accepted in two shapes: explicit exponent ([n += d * pow(5, exp) * 20; exp += 1]) or a running weight
+    ([n += d * weight; weight *= 5], weight starting at 20) *)
+Ltac conv_loop_exp body enc a :=
+  assert (L : forall l n e, py_for body l (n, e) =
+                            match ms_loop l (5 ^ e) n with Some n' => Some (n', e + py_len l) | None => None end);
+  [ let l := fresh "l" in let c := fresh "c" in let IH := fresh "IH" in
+    induction l as [|c l IH]; intros n e;
+    [ cbn; unfold py_len; cbn; rewrite N.add_0_r; reflexivity
+    | cbn [py_for ms_loop]; unfold body at 1; rewrite gen_msdigit_eq;
+      destruct (msdigit c) as [d|]; [|reflexivity];
+      fold body; rewrite IH; rewrite N.pow_add_r, N.pow_1_r;
+      replace (5 ^ e * 5) with (5 * 5 ^ e) by lia;
+      destruct (ms_loop l (5 * 5 ^ e) (n + d * 5 ^ e * 20)); [|reflexivity];
+      f_equal; f_equal; unfold py_len; cbn [length]; lia ]
+  | rewrite L; change (5 ^ 0) with 1; destruct (ms_loop enc 1 a); reflexivity ].
+
+Ltac conv_loop_weight body enc a :=
+  assert (L : forall l n pw, py_for body l (n, 20 * pw) =
+                             match ms_loop l pw n with Some n' => Some (n', 20 * pw * 5 ^ py_len l) | None => None end);
+  [ let l := fresh "l" in let c := fresh "c" in let IH := fresh "IH" in
+    induction l as [|c l IH]; intros n pw;
+    [ cbn; unfold py_len; cbn; rewrite N.mul_1_r; reflexivity
+    | cbn [py_for ms_loop]; unfold body at 1; rewrite gen_msdigit_eq;
+      destruct (msdigit c) as [d|]; [|reflexivity];
+      fold body;
+      replace (n + d * (20 * pw)) with (n + d * pw * 20) by lia;
+      replace (20 * pw * 5) with (20 * (5 * pw)) by lia;
+      rewrite IH;
+      destruct (ms_loop l (5 * pw) (n + d * pw * 20)); [|reflexivity];
+      f_equal; f_equal; unfold py_len; cbn [length]; rewrite Nat2N.inj_succ, N.pow_succ_r'; lia ]
+  | change 20 with (20 * 1) at 1; rewrite L; destruct (ms_loop enc 1 a); reflexivity ].
+
 Theorem gen_convert_to_number_eq : forall w, gen_convert_to_number w = decode_word w.
 Proof.
-  intros w. unfold gen_convert_to_number, decode_word.
+  intros w. unfold gen_convert_to_number, decode_word. cbv zeta.
   destruct (rev w) as [|f enc]; [reflexivity|].
   rewrite gen_lsdigit_eq. destruct (lsdigit f) as [a|]; [|reflexivity].
   match goal with |- context [py_for ?b enc _] => set (body := b) end.
-  assert (L : forall l n e, py_for body l (n, e) =
-                            match ms_loop l (5 ^ e) n with Some n' => Some (n', e + py_len l) | None => None end).
-  { induction l as [|c l IH]; intros n e.
-    - cbn. unfold py_len. cbn. rewrite N.add_0_r. reflexivity.
-    - cbn [py_for ms_loop]. unfold body at 1. rewrite gen_msdigit_eq.
-      destruct (msdigit c) as [d|]; [|reflexivity].
-      fold body. rewrite IH. rewrite N.pow_add_r, N.pow_1_r.
-      replace (5 ^ e * 5) with (5 * 5 ^ e) by lia.
-      destruct (ms_loop l (5 * 5 ^ e) (n + d * 5 ^ e * 20)); [|reflexivity].
-      f_equal. f_equal. unfold py_len. cbn [length]. lia. }
-  rewrite L. change (5 ^ 0) with 1. destruct (ms_loop enc 1 a); reflexivity.
+  first [ conv_loop_exp body enc a | conv_loop_weight body enc a ].
 Qed.
 
 (* ------------------------------------------------------------------------------------------ *)
@@ -134,15 +156,15 @@ Proof.
 Qed.
 
 (** the label-registering loop *)
-Lemma label_loop (body : N -> N -> option N * list (N * str) * N * str -> option (ctrl * (option N * list (N * str) * N * str))) :
-  (forall i c io d n buf, body i c (io, d, n, buf) =
-     if is_space c then Some (CNext, (Some i, dict_set d n buf, n + 1, []))
-     else if c =? 41 then Some (CBreak, (Some i, d, n, buf))
-     else Some (CNext, (Some i, d, n, buf ++ [c]))) ->
+Lemma label_loop (body : N -> N -> option N * list (N * str) * str * N -> option (ctrl * (option N * list (N * str) * str * N))) :
+  (forall i c io d n buf, body i c (io, d, buf, n) =
+     if is_space c then Some (CNext, (Some i, dict_set d n buf, [], n + 1))
+     else if c =? 41 then Some (CBreak, (Some i, d, buf, n))
+     else Some (CNext, (Some i, d, buf ++ [c], n))) ->
   forall s i io tbl buf, exists n' b',
-    py_for_enum body i s (io, numbered 1 tbl, py_len tbl + 1, buf) =
+    py_for_enum body i s (io, numbered 1 tbl, buf, py_len tbl + 1) =
     Some (match s with [] => io | _ :: _ => Some (N.of_nat (snd (lab_loop s buf (N.to_nat i)))) end,
-          numbered 1 (tbl ++ fst (lab_loop s buf (N.to_nat i))), n', b').
+          numbered 1 (tbl ++ fst (lab_loop s buf (N.to_nat i))), b', n').
 Proof.
   intros Hb. induction s as [|c r IH]; intros i io tbl buf.
   - cbn. rewrite app_nil_r. eauto.
@@ -176,11 +198,11 @@ Theorem gen_parse_lemmas_eq : forall proof mand,
   end.
 Proof.
   intros proof mand. unfold gen_parse_lemmas, parse_lemmas.
-  rewrite (enum_break_loop _ (fun c => c =? 40)) by (intros; reflexivity).
+  rewrite (enum_break_loop _ (fun c => c =? 40)) by (intros; cbv beta; first [reflexivity | destruct (_ =? 40); reflexivity]).
   destruct (for_break (fun c => c =? 40) proof) as [i|]; [|reflexivity].
   cbv beta iota. rewrite N.add_0_l.
   replace (N.of_nat i + 1) with (N.of_nat (i + 1)) by lia. rewrite skipn_py.
-  rewrite (enum_break_loop _ (fun c => negb (is_space c))) by (intros; reflexivity).
+  rewrite (enum_break_loop _ (fun c => negb (is_space c))) by (intros; cbv beta; first [reflexivity | destruct (is_space _); reflexivity]).
   destruct (for_break (fun c => negb (is_space c)) (skipn (i + 1) proof)) as [j|]; [|reflexivity].
   cbv beta iota zeta. rewrite N.add_0_l.
   replace (N.of_nat i + N.of_nat j + 1) with (N.of_nat (i + j + 1)) by lia. rewrite skipn_py.
@@ -200,6 +222,58 @@ Section WithCtx.
   Variable stmts : list gstmt.
   Variable mv : list str.
 
+  (** the mandatory-hypothesis numbering is accepted in two shapes: the loop that stores under a running key, or
+      [dict(enumerate(<generator of the labels>, start=1))]; likewise the white-space stripping: loop or [''.join(<generator>)] *)
+  Lemma mand_loop (body : gstmt -> list (N * str) * N -> option (ctrl * (list (N * str) * N))) :
+    (forall f d n, body f (d, n) =
+       if andb (gs_is_floating f) (mem_str (gs_metavariable f) mv)
+       then Some (CNext, (dict_set d n (gs_label f), n + 1)) else Some (CNext, (d, n))) ->
+    forall ss tbl, py_for body ss (numbered 1 tbl, py_len tbl + 1) =
+                   Some (numbered 1 (tbl ++ mand_db_order (floats_of ss) mv),
+                         py_len (tbl ++ mand_db_order (floats_of ss) mv) + 1).
+  Proof.
+    intros Hb. induction ss as [|s ss IH]; intros tbl.
+    - cbn. rewrite app_nil_r. reflexivity.
+    - cbn [py_for]. rewrite Hb. destruct s as [l v|]; cbn [gs_is_floating gs_metavariable gs_label andb].
+      + unfold mand_db_order. cbn [floats_of flat_map app filter snd]. destruct (mem_str v mv).
+        * replace (py_len tbl + 1) with (1 + py_len tbl) by lia. rewrite numbered_set_new.
+          replace (1 + py_len tbl + 1) with (py_len (tbl ++ [l]) + 1)
+            by (unfold py_len; rewrite app_length; cbn [length]; lia).
+          rewrite IH. unfold mand_db_order. cbn [map fst]. rewrite <- app_assoc. reflexivity.
+        * rewrite IH. reflexivity.
+      + rewrite IH. reflexivity.
+  Qed.
+
+  Lemma genexp_mand :
+    py_genexp (fun f => if andb (gs_is_floating f) (mem_str (gs_metavariable f) mv) then Some (gs_label f) else None) stmts
+    = mand_db_order (floats_of stmts) mv.
+  Proof.
+    unfold py_genexp, mand_db_order. induction stmts as [|s ss IH]; [reflexivity|].
+    cbn [flat_map floats_of]. destruct s as [l v|]; cbn [gs_is_floating gs_metavariable gs_label andb app].
+    - cbn [filter snd]. destruct (mem_str v mv); cbn [map fst app]; rewrite IH; reflexivity.
+    - exact IH.
+  Qed.
+
+  Lemma py_dict_enum_numbered : forall l b, @py_dict_enum str b l = numbered b l.
+  Proof. induction l as [|x l IH]; intros b; [reflexivity|]. cbn [py_dict_enum numbered]. rewrite IH. reflexivity. Qed.
+
+  Lemma ws_loop (body : N -> list N -> option (ctrl * list N)) :
+    (forall c acc, body c acc = if is_space c then Some (CNext, acc) else Some (CNext, acc ++ [c])) ->
+    forall xs acc, py_for body xs acc = Some (acc ++ filter (fun c => negb (is_space c)) xs).
+  Proof.
+    intros Hb. induction xs as [|c xs IH]; intros acc.
+    - cbn. rewrite app_nil_r. reflexivity.
+    - cbn [py_for filter]. rewrite Hb. destruct (is_space c); cbn [negb]; rewrite IH.
+      + reflexivity.
+      + rewrite <- app_assoc. reflexivity.
+  Qed.
+
+  Lemma py_genexp_filter {X} (p : X -> bool) xs : py_genexp (fun c => if p c then Some c else None) xs = filter p xs.
+  Proof.
+    unfold py_genexp. induction xs as [|c xs IH]; [reflexivity|].
+    cbn [flat_map filter]. destruct (p c); cbn [app]; rewrite IH; reflexivity.
+  Qed.
+
   Theorem gen_split_proof_eq : forall proof,
     gen_split_proof stmts mv proof =
     match split_proof (mand_db_order (floats_of stmts) mv) proof with
@@ -207,37 +281,22 @@ Section WithCtx.
     | None => None
     end.
   Proof.
-    intros proof. unfold gen_split_proof, split_proof.
+    intros proof. unfold gen_split_proof, split_proof. cbv zeta.
     destruct proof as [|c0 proof0]; [reflexivity|]. cbn [is_nil negb].
     set (proof := c0 :: proof0).
-    match goal with |- context [py_for ?b stmts _] => set (body1 := b) end.
-    assert (L1 : forall ss tbl, py_for body1 ss (numbered 1 tbl, py_len tbl + 1) =
-                 Some (numbered 1 (tbl ++ mand_db_order (floats_of ss) mv),
-                       py_len (tbl ++ mand_db_order (floats_of ss) mv) + 1)).
-    { induction ss as [|s ss IH]; intros tbl.
-      - cbn. rewrite app_nil_r. reflexivity.
-      - cbn [py_for]. unfold body1 at 1. destruct s as [l v|]; cbn [gs_is_floating gs_metavariable gs_label andb].
-        + unfold mand_db_order. cbn [floats_of flat_map app filter snd]. destruct (mem_str v mv).
-          * replace (py_len tbl + 1) with (1 + py_len tbl) by lia. rewrite numbered_set_new.
-            replace (1 + py_len tbl + 1) with (py_len (tbl ++ [l]) + 1)
-              by (unfold py_len; rewrite app_length; cbn [length]; lia).
-            fold body1. rewrite IH. unfold mand_db_order. cbn [map fst]. rewrite <- app_assoc. reflexivity.
-          * fold body1. rewrite IH. reflexivity.
-        + fold body1. rewrite IH. reflexivity. }
-    change (@nil (N * str)) with (numbered 1 []) at 1.
-    change 1 with (py_len (@nil str) + 1) at 2.
-    unfold str in *. rewrite L1. cbn [app]. cbv beta iota.
+    (* numbering of the mandatory hypotheses *)
+    first [ rewrite genexp_mand, py_dict_enum_numbered; unfold str in *
+          | unfold str in *; change (@nil (N * list N), 1) with (numbered 1 (@nil (list N)), py_len (@nil (list N)) + 1);
+            match goal with |- context [py_for ?b stmts _] => rewrite (mand_loop b) by (intros; reflexivity) end;
+            cbn [app]; cbv beta iota ].
     rewrite gen_parse_lemmas_eq.
     destruct (parse_lemmas proof) as [[ls off]|]; [|reflexivity].
-    rewrite skipn_py.
-    match goal with |- context [py_for ?b (skipn off proof) _] => set (body2 := b) end.
-    assert (L2 : forall xs acc, py_for body2 xs acc = Some (acc ++ filter (fun c => negb (is_space c)) xs)).
-    { induction xs as [|c xs IH]; intros acc.
-      - cbn. rewrite app_nil_r. reflexivity.
-      - cbn [py_for filter]. unfold body2 at 1. destruct (is_space c); cbn [negb]; fold body2; rewrite IH.
-        + reflexivity.
-        + rewrite <- app_assoc. reflexivity. }
-    rewrite L2. reflexivity.
+    cbv beta iota. rewrite skipn_py.
+    (* white space removed from the letter block *)
+    first [ rewrite py_genexp_filter; reflexivity
+          | match goal with |- context [py_for ?b (skipn off proof) _] =>
+              rewrite (ws_loop b) by (intros; cbv beta; first [reflexivity | destruct (is_space _); reflexivity]) end;
+            reflexivity ].
   Qed.
 
   Theorem gen_import_proof_eq : forall proof,
@@ -297,14 +356,14 @@ Section ReplayAgree.
     intros tbl m k steps Hlen. unfold gen_replay. rewrite numbered_len.
     match goal with |- context [py_for ?b steps _] => set (body := b) end.
     assert (L : forall ss mem tr top,
-               match replay_marks eqb false m k ss top mem, py_for body ss (mem, tr, top) with
-               | Some evs, Some (_, tr', _) => tr' = tr ++ map erase evs
+               match replay_marks eqb false m k ss top mem, py_for body ss (tr, top, mem) with
+               | Some evs, Some (tr', _, _) => tr' = tr ++ map erase evs
                | None, None => True
                | _, _ => False
                end).
     { induction ss as [|[n t] ss IH]; intros mem tr top.
       - cbn. rewrite app_nil_r. reflexivity.
-      - cbn [replay_marks py_for]. remember (body (n, t) (mem, tr, top)) as bc eqn:Hbc.
+      - cbn [replay_marks py_for]. remember (body (n, t) (tr, top, mem)) as bc eqn:Hbc.
         unfold body in Hbc. cbv beta iota zeta in Hbc. cbn [fst snd] in Hbc. subst bc.
         rewrite numbered_has. unfold classify, py_len. rewrite Hlen.
         destruct (n =? 0) eqn:E0.
@@ -312,7 +371,7 @@ Section ReplayAgree.
           destruct top as [p|]; [|exact I]. cbn [andb].
           specialize (IH (mem ++ [p]) (tr ++ [GSave p]) (Some p)). revert IH.
           destruct (replay_marks eqb false m k ss (Some p) (mem ++ [p])) as [evs|];
-            destruct (py_for body ss (mem ++ [p], tr ++ [GSave p], Some p)) as [[[m' tr'] top']|];
+            destruct (py_for body ss (tr ++ [GSave p], Some p, mem ++ [p])) as [[[tr' top'] m']|];
             cbn [option_map]; intros IH; try exact IH.
           rewrite IH, <- app_assoc. reflexivity.
         + apply N.eqb_neq in E0.
@@ -323,7 +382,7 @@ Section ReplayAgree.
             rewrite X. cbn [negb].
             specialize (IH mem (tr ++ [GLabel t]) (Some t)). revert IH.
             destruct (replay_marks eqb false m k ss (Some t) mem) as [evs|];
-              destruct (py_for body ss (mem, tr ++ [GLabel t], Some t)) as [[[m' tr'] top']|];
+              destruct (py_for body ss (tr ++ [GLabel t], Some t, mem)) as [[[tr' top'] m']|];
               cbn [option_map]; intros IH; try exact IH.
             rewrite IH, <- app_assoc. reflexivity.
           * apply Nat.leb_le in L2.
@@ -332,7 +391,7 @@ Section ReplayAgree.
             rewrite X. cbn [negb].
             specialize (IH mem (tr ++ [GLabel t]) (Some t)). revert IH.
             destruct (replay_marks eqb false m k ss (Some t) mem) as [evs|];
-              destruct (py_for body ss (mem, tr ++ [GLabel t], Some t)) as [[[m' tr'] top']|];
+              destruct (py_for body ss (tr ++ [GLabel t], Some t, mem)) as [[[tr' top'] m']|];
               cbn [option_map]; intros IH; try exact IH.
             rewrite IH, <- app_assoc. reflexivity.
           * apply Nat.leb_gt in L1. apply Nat.leb_gt in L2.
@@ -343,12 +402,12 @@ Section ReplayAgree.
             destruct (nth_error mem (N.to_nat n - m - k - 1)) as [p|]; [|exact I].
             specialize (IH mem (tr ++ [GLoad p]) (Some p)). revert IH.
             destruct (replay_marks eqb false m k ss (Some p) mem) as [evs|];
-              destruct (py_for body ss (mem, tr ++ [GLoad p], Some p)) as [[[m' tr'] top']|];
+              destruct (py_for body ss (tr ++ [GLoad p], Some p, mem)) as [[[tr' top'] m']|];
               cbn [option_map]; intros IH; try exact IH.
             rewrite IH, <- app_assoc. reflexivity. }
     specialize (L steps [] [] None). revert L.
     destruct (replay_marks eqb false m k steps None []) as [evs|];
-      destruct (py_for body steps ([], [], None)) as [[[m' tr'] top']|]; cbn [option_map]; intros L; try contradiction.
+      destruct (py_for body steps ([], None, [])) as [[[tr' top'] m']|]; cbn [option_map]; intros L; try contradiction.
     - subst tr'. reflexivity.
     - reflexivity.
   Qed.
